@@ -219,3 +219,9 @@ func verifCollect[K comparable, V any](m *Map[K, V]) []Tuple[K, V] {
 //@     invariant [keys] forall k2 K :: {has(m.index,k2)} has(m.index,k2) ==> (exists i int :: 0 <= i && i < $idx && ps[i].Key == k2)
 //@     invariant [all] forall i int :: {ps[i]} 0 <= i && i < $idx ==> has(m.index, ps[i].Key)
 //@     decreases len(ps) - $idx
+
+// Unmarshal is given its frame only here: it may write anything reachable from
+// dst (stated coarsely as "everything"); functional clauses are added by the
+// properties that need them.
+//@ func Unmarshal
+//@   assigns everything
